@@ -105,8 +105,10 @@ def _gen_collection(rnd, reparse_safe, with_seq, chunk):
     def quals(share=None):
         q = {}
         for _ in range(rnd.randrange(0, 3)):
-            k = rnd.choice(["note", "Note2", "db xref", "k;ey", "função", "e=q"]) if not reparse_safe else \
-                rnd.choice(["note", "note2", "db_xref", "funcao"])
+            # keys whose lower-case form differs from their case-FOLDED form are keys like any other (documented: keys
+            # are lower-cased)
+            k = rnd.choice(["note", "Note2", "db xref", "k;ey", "função", "e=q", "Straße", "µmol_per_l", "ΟΔΟΣ", "ǅ"]) \
+                if not reparse_safe else rnd.choice(["note", "note2", "db_xref", "funcao", "straße", "µmol_per_l", "οδος"])
             q[k] = [T() for _ in range(rnd.randrange(1, 3))]
         if share and rnd.random() < 0.6:
             # a child that has a qualifier key of its parent's with values of its own
